@@ -29,9 +29,9 @@ REQUIRED_FEATURES = ["dump:region", "dump:region2", "dump:fill-lower", "dump:joi
 
 def plan(tier, seed):
     n = 16 if tier == "quick" else 48
-    return [{"kind": "dump", "sub": i, "cases": 5 if tier == "quick" else 14} for i in range(n)] + \
-           [{"kind": "rt", "sub": i, "cases": 4 if tier == "quick" else 12} for i in range(n)] + \
-           [{"kind": "layout", "sub": i, "cases": 4 if tier == "quick" else 12} for i in range(n)]
+    return [{"kind": "dump", "sub": i, "cases": 5 if tier == "quick" else 40} for i in range(n)] + \
+           [{"kind": "rt", "sub": i, "cases": 4 if tier == "quick" else 36} for i in range(n)] + \
+           [{"kind": "layout", "sub": i, "cases": 4 if tier == "quick" else 36} for i in range(n)]
 
 
 def run(ctx, shard):
